@@ -279,6 +279,7 @@ func runC05(env *Env, tier string) {
 			old := s.eng
 			old.Dead = true
 			old.StopAsync()
+			env.Settle() // the stop goroutine has run as far as it can before anyone looks at it
 			for k := 0; k < 100 && !old.StopFinished(); k++ {
 				adv(200 * time.Millisecond)
 			}
